@@ -105,8 +105,9 @@ def main(tier):
     if len(arena_sites) == 1 and len(root_sites) == 1:
         cfg = CFG(f["mir"])
         run.ob("interpolation", "#arena is emitted before #root_node", cfg.dominates(arena_sites[0][0], root_sites[0][0]), key="interpolation|arena is not evaluated before the root expression", nontrivial="order")
-    reps = [i for i in inter if "RepInterp" in i[1]]
-    run.ob("interpolation", "the action list is interpolated exactly once (#(#actions)*)", len(reps) == 1, key="interpolation|action list interpolated %d times" % len(reps), detail=inter, nontrivial="rep")
+    # the generated action code enters the template once: as a repetition `#(#actions)*` or as one pre-joined token stream
+    reps = [i for i in inter if "RepInterp" in i[1] or "TokenStream as quote::to_tokens::ToTokens" in i[1] or "proc_macro2::TokenStream" in i[1]]
+    run.ob("interpolation", "the action code is interpolated exactly once (#(#actions)* or one joined stream)", len(reps) == 1, key="interpolation|action list interpolated %d times" % len(reps), detail=inter, nontrivial="rep")
     # (2) Append template
     gi = []
     for bi, t in prog.calls(g):
